@@ -71,7 +71,10 @@ def build(x):
         if op == "chain":
             # the ordering is given over the atom's own variable objects, arranged by the generated name order
             pos = {f"V{n}": k for k, n in enumerate(x["ord"])}
-            order = sorted(a.children + a.parents, key=lambda v: pos[v.name])
+            used = {v.name for v in a.children + a.parents}
+            # a global ordering: the atom's own variable objects plus the names that do not occur in it
+            extra = tuple(var(n) for n in x["ord"] if f"V{n}" not in used)
+            order = sorted(a.children + a.parents + extra, key=lambda v: pos[v.name])
             return chain_expand(a, reorder=x["reorder"], ordering=order if x["reorder"] else None)
         return fraction_expand(a) if op == "fexp" else bayes_expand(a)
     raise TypeError(op)
